@@ -199,6 +199,7 @@ def run(rep: core.Report):
     _r16k(rep)
     _r16l(rep)
     _r16m(rep)
+    _r16o(rep)
     _r16n(rep)
     _r16j(rep)
     from rules import c03
@@ -814,6 +815,37 @@ def _r16n(rep):
                      f"the dumper writes {lost} and the loader stores it {'unchanged' if norm == 'identity' else 'through ' + norm + '()'}; the dispatch compares with {sorted(vocab)} case-sensitively, so a calculation saved with that method reloads with another one", line=st.lineno)
 
 
+def _r16o(rep):
+    """BORN writer: the independent atoms are addressed in the unit cell, not in the supercell."""
+    rep.rule("R16o", "BORN file contents: the indices with which the Born tensors of the symmetry-independent atoms are taken from the unit-cell array are unit-cell indices (index-domain typing of the supercell maps: p2s_map and s2p_map give supercell indices, s2u_map the supercell index of the first image, u2u_map turns that into the unit-cell index): with a supercell matrix other than the identity a first-image supercell index selects another atom's tensor or runs off the array", 1)
+    SYMF = "phonopy/structure/symmetry.py"
+    fn = core.find_def(SYMF, "_extract_independent_atoms")
+    rets = [r.value for r in ast.walk(fn) if isinstance(r, ast.Return) and isinstance(r.value, ast.Tuple) and len(r.value.elts) == 2]
+    if len(rets) != 1:
+        raise AnalysisError("R16o: _extract_independent_atoms no longer returns (supercell indices, unit-cell indices)")
+    COD = {"p2s_map": "S", "s2p_map": "S", "s2u_map": "S0", "u2s_map": "S0", "u2u_map": "U", "p2p_map": "P"}
+
+    def dom(e, depth=0):
+        e = core.resolve_name(fn, e) if isinstance(e, ast.Name) and depth < 6 else e
+        if isinstance(e, ast.Call) and core.src(e.func) in ("np.array", "np.asarray", "list") and e.args:
+            return dom(e.args[0], depth + 1)
+        if isinstance(e, ast.ListComp):
+            return dom(e.elt, depth + 1)
+        if isinstance(e, ast.Subscript):
+            base = e.value
+            nm = base.attr if isinstance(base, ast.Attribute) else (base.id if isinstance(base, ast.Name) else None)
+            if nm and nm.lstrip("_") in COD:
+                return COD[nm.lstrip("_")]
+            return dom(base, depth + 1)
+        return None
+
+    got = dom(rets[0].elts[1])
+    if got is None:
+        raise AnalysisError(f"R16o: cannot type the unit-cell indices '{core.src(core.resolve_name(fn, rets[0].elts[1]))}' returned by _extract_independent_atoms")
+    rep.instance("R16o", SYMF, "_extract_independent_atoms", f"{core.norm(core.src(core.resolve_name(fn, rets[0].elts[1])), 70)} : values in {got}", got == "U",
+                 f"the indices handed to the BORN writer for the unit-cell Born array are typed {got} (S supercell index, S0 supercell index of the first image), not U: written with --dim the file holds the tensors of other atoms, and parse_BORN expands them to wrong charges without complaint", line=rets[0].lineno)
+
+
 def _r16m(rep):
     """Writers start from an empty file."""
     rep.rule("R16m", "file writers (write_* functions of phonopy/file_IO.py and the yaml / hdf5 writers of the phonon classes): every file a writer opens for output is opened truncating (mode 'w' / 'wb'): what the file holds afterwards is exactly what this call wrote; an appending or updating mode keeps optional entries of an earlier file (a physical unit, a p2s_map) next to the new data, and the reader applies them", 6)
@@ -964,6 +996,8 @@ def selftest():
     n = lambda name, file, old, new, **kw: V.append(dict(name=name, kind="neutral", file=file, old=old, new=new, **kw))
     b("hdf5 force constants written in append mode", "phonopy/file_IO.py", "    with h5py.File(filename, \"w\") as w:\n        w.create_dataset(\n            \"force_constants\"", "    with h5py.File(filename, \"a\") as w:\n        w.create_dataset(\n            \"force_constants\"", "R16m", "write_force_constants_to_hdf5")
     b("NAC method read from yaml without normalisation", "phonopy/interface/phonopy_yaml.py", "            nac_params[\"method\"] = nac_yaml[\"method\"].lower()", "            nac_params[\"method\"] = nac_yaml[\"method\"]", "R16n", "_parse_nac")
+    b("independent atoms addressed by first-image supercell indices", "phonopy/structure/symmetry.py", "    u_indep_atoms = [scell.u2u_map[x] for x in s_indep_atoms]", "    u_indep_atoms = scell.s2u_map[s_indep_atoms]", "R16o", "_extract_independent_atoms")
+    n("independent atoms through both maps", "phonopy/structure/symmetry.py", "    u_indep_atoms = [scell.u2u_map[x] for x in s_indep_atoms]", "    u_indep_atoms = [scell.u2u_map[scell.s2u_map[x]] for x in s_indep_atoms]")
     YML_ = "phonopy/interface/phonopy_yaml.py"
     b("dataset section only under the displacements setting", YML_, "        lines = []\n        if (\n            self._dumper_settings[\"force_sets\"]\n            or self._dumper_settings[\"displacements\"]\n        ):\n            disp_yaml_lines = self._displacements_yaml_lines(\n                with_forces=self._dumper_settings[\"force_sets\"]\n            )\n            lines += disp_yaml_lines\n        return lines\n", "        if not self._dumper_settings[\"displacements\"]:\n            return []\n        return self._displacements_yaml_lines(\n            with_forces=self._dumper_settings[\"force_sets\"]\n        )\n", "R16l", "_dataset_yaml_lines")
     n("dataset section with early return on both settings off", YML_, "        lines = []\n        if (\n            self._dumper_settings[\"force_sets\"]\n            or self._dumper_settings[\"displacements\"]\n        ):\n            disp_yaml_lines = self._displacements_yaml_lines(\n                with_forces=self._dumper_settings[\"force_sets\"]\n            )\n            lines += disp_yaml_lines\n        return lines\n", "        with_forces = self._dumper_settings[\"force_sets\"]\n        if not (with_forces or self._dumper_settings[\"displacements\"]):\n            return []\n        return self._displacements_yaml_lines(with_forces=with_forces)\n")
